@@ -126,13 +126,19 @@ var zzC08Alpha = []zzOp{
 	zzH("/h", "GET"), zzH("/h", "POST"), zzH("/h/{x}", "GET", "DELETE"),
 	zzRm("/h", "GET"), zzRm("/h", "HEAD"), zzRm("/h", "OPTIONS"), zzRm("/h", ""), zzRm("/h", "POST"),
 	zzRm("/h", "HEAD", "POST"), zzRm("/h/{x}", "OPTIONS", "HEAD", ""), zzRm("/h/{x}", "DELETE", "GET"), zzRm("/h"),
+	zzH("/h", "TRACE"), // registered by hand: the router of these histories has no WithTrace
 }
 
-// ZZC08Hist(n): every history of n operations; then every method on both patterns.
+// ZZC08Hist(n): every history of n%10 operations; then every method on both patterns.
+// n/10 = 1: the histories start after "/h/{x}" was registered, so that the node of "/h"
+// outlives the removal of all its methods.
 func ZZC08Hist(n int) {
 	r := zzNewRouter("r")
 	m := &zzModel{}
-	for i := 0; i < n; i++ {
+	if n/10 == 1 {
+		zzApply(r, m, zzH("/h/{x}", "PUT"), 50)
+	}
+	for i := 0; i < n%10; i++ {
 		op := zzC08Alpha[zzv.Choice("op", len(zzC08Alpha))]
 		if !zzApply(r, m, op, i+1) {
 			zzv.Assume(false)
@@ -141,7 +147,7 @@ func ZZC08Hist(n int) {
 	zzv.Cover("history")
 	zzCheckRoutes("routes", r, m, false)
 	for _, p := range []string{"/h", "/h/7"} {
-		for _, x := range []string{"GET", "HEAD", "OPTIONS", "POST", "DELETE", "PUT", ""} {
+		for _, x := range []string{"GET", "HEAD", "OPTIONS", "POST", "DELETE", "PUT", "TRACE", ""} {
 			var o *zzObs
 			pn, _ := zzGuard(func() { o, _ = zzServe(r, zzReq(x, p)) })
 			zzv.Assert(!pn, "hist:request-panics")
